@@ -114,7 +114,7 @@ func (g WeierstrassGroup) Mul(k *big.Int, p curve.FpPoint) curve.FpPoint {
 }
 func (g WeierstrassGroup) Equal(p, q curve.FpPoint) bool   { return g.C.Equal(p, q) }
 func (g WeierstrassGroup) IsIdentity(p curve.FpPoint) bool { return p.Inf }
-func (g WeierstrassGroup) InSubgroup(p curve.FpPoint) bool { return g.C.InSubgroup(p) }
+func (g WeierstrassGroup) InSubgroup(p curve.FpPoint) bool { return inSubgroup(g.C, p) } // cofactor 1: on-curve suffices
 
 func (g WeierstrassGroup) Encode(p curve.FpPoint) []byte {
 	n := g.C.F.ByteLen()
